@@ -1,5 +1,6 @@
 import Nri.Model.Guard
 import Nri.Gen.HandlerGuards
+import Nri.Gen.OptDerefs
 /-!
 C14 — no request can crash a plugin (resource-manager handlers: lookup discipline).
 
@@ -79,6 +80,10 @@ theorem handlers_never_panic (found : String → Bool) :
 /-- the topology-aware allocation path evaluates the pod only behind a check (regenerated facts) -/
 theorem ta_pod_use_guarded :
     Nri.Gen.Guards.newRequestCallers = ["allocatePool"] ∧ Nri.Gen.Guards.allocatePoolChecksPodFirst = true := by decide
+
+/-- the side plugins and the NRI handlers read optional sub-messages of NRI messages only through the nil-safe
+accessors: no plain field-selector chain through `Linux`, `Resources`, `Memory`, `Cpu`, … is left (regenerated) -/
+theorem no_direct_optional_derefs : Nri.Gen.OptDerefs.directDerefs = [] := by decide
 
 /-- an unguarded use does panic for an unknown id (the shape StopPodSandbox/RemovePodSandbox had) -/
 theorem unguarded_use_panics : exec (fun _ => false) (.lookup "pod" (.use "pod" .done)) = .panic := by decide
